@@ -72,10 +72,11 @@ func WithMassive(ctx context.Context) Option {
 	return func(c *config) {
 		c.massive = true
 
-		if ctx == nil {
-			ctx = context.Background()
-		}
+		// (ctx belongs to the Option value, which callers may apply from several goroutines: it is only read)
 		c.ctx = ctx
+		if c.ctx == nil {
+			c.ctx = context.Background()
+		}
 	}
 }
 
